@@ -755,7 +755,8 @@ void components(const runcfg &c, const std::string &what, unsigned count)
 
     bool members(true);
     for (auto p : ps) members = members && mon.member(p);
-    if (!members || ps.size() < 2)
+    // (family_competition and ALPS replacement read parent[1]; replacement::tournament only parent.back())
+    if (!members || ps.empty() || (ps.size() < 2 && (what == "family" || c.strat == "alps")))
       continue;
 
     typename replacement::strategy<T>::offspring_t off{new_off()};
